@@ -34,7 +34,7 @@ import (
 )
 
 type typedPkg struct {
-	New      func(cb func(ctx context.Context, op string, args []any, res any) error, ne func(ctx context.Context, err error, res any), fill func(context.Context, any), saw func(context.Context, any), hc ht.Client, eh func(context.Context, http.ResponseWriter, *http.Request, error), mws ...middleware.Middleware) (http.Handler, any, any, error)
+	New      func(prefix string, cb func(ctx context.Context, op string, args []any, res any) error, ne func(ctx context.Context, err error, res any), fill func(context.Context, any), saw func(context.Context, any), hc ht.Client, eh func(context.Context, http.ResponseWriter, *http.Request, error), mws ...middleware.Middleware) (http.Handler, any, any, error)
 	Impls    map[string][]reflect.Type
 	Ops      []string
 	Webhooks map[string]string // webhook operation -> webhook name
